@@ -103,9 +103,14 @@ def run(ctx):
     fam_iv = []
     for c in rnd.sample(fam_ii, min(len(fam_ii), 3000 if q else 40000)) + rnd.sample(fam_iii, 1000 if q else 20000):
         fam_iv.append(dict(c, mode=rnd.choice(['text', 'ctls-obj', 'raw'])))
+    # tall formulas: a specification folded from 100-140 requirements with a binary connective
+    ctl_bases = [('E', ('G', P)), ('A', ('F', Q)), ('E', ('U', P, Q)), ('A', ('G', ('E', ('F', P)))), ('A', ('R', P, Q))]
+    ctl_leaves = (P, Q, ('not', P), TR, ('E', ('X', Q)), ('A', ('X', P)))
+    fam_t = [{'logic': 'CTL', 'K': gen.rand_kripke(rnd, rnd.choice([3, 4])), 'f': gen.tall_path(rnd, rnd.randint(98, 140), leaves=ctl_leaves, base=rnd.choice(ctl_bases)),
+              'late_edge': False} for _ in range(24 if q else 300)]
     memo_binding(ctx, [dict(c) for c in rnd.sample(fam_ii + fam_iii, 1500 if q else 20000)])
     mcfam.run_families(ctx, [('operand_complete', fam_i), ('scope', fam_ii), ('random', fam_iii),
-                             ('text_or_cast', fam_iv), ('print_collision', fam_pc)])
+                             ('text_or_cast', fam_iv), ('print_collision', fam_pc), ('tall', fam_t)])
 
 
 def memo_binding(ctx, cases):
